@@ -34,8 +34,67 @@ class AsyncScriptClient(AbstractAsyncClient):
         return r
 
 
-def make_client(kind, responder, **kw):
-    return (AsyncScriptClient if kind == 'async' else ScriptClient)(responder, **kw)
+def custom_client_classes():
+    """trivial subclasses / wrappers for every pluggable piece of a client; each one counts its uses"""
+    import json as _json
+
+    from pjrpc.common import JSONEncoder, v20
+    uses = {}
+
+    def count(k):
+        uses[k] = uses.get(k, 0) + 1
+
+    class Rq(v20.Request):
+        def to_json(self):
+            count('request_class')
+            return super().to_json()
+
+    class Rs(v20.Response):
+        @classmethod
+        def from_json(cls, data, error_cls=None, **kw):
+            count('response_class')
+            return super().from_json(data, **({'error_cls': error_cls} if error_cls is not None else {}), **kw)
+
+    class BRq(v20.BatchRequest):
+        def to_json(self):
+            count('batch_request_class')
+            return super().to_json()
+
+    class BRs(v20.BatchResponse):
+        @classmethod
+        def from_json(cls, data, error_cls=None, **kw):
+            count('batch_response_class')
+            return super().from_json(data, **({'error_cls': error_cls} if error_cls is not None else {}), **kw)
+
+    class Enc(JSONEncoder):
+        def encode(self, o):
+            count('json_encoder')
+            return super().encode(o)
+
+    class Dec(_json.JSONDecoder):
+        def decode(self, s, *a, **kw):
+            count('json_decoder')
+            return super().decode(s, *a, **kw)
+
+    def loads(text, **kw):
+        count('json_loader')
+        return _json.loads(text, **kw)
+
+    def dumps(obj, **kw):
+        count('json_dumper')
+        return _json.dumps(obj, **kw)
+    return dict(request_class=Rq, response_class=Rs, batch_request_class=BRq, batch_response_class=BRs, json_encoder=Enc,
+                json_decoder=Dec, json_loader=loads, json_dumper=dumps), uses
+
+
+def make_client(kind, responder, custom=False, **kw):
+    cls = AsyncScriptClient if kind == 'async' else ScriptClient
+    if custom:
+        cc, uses = custom_client_classes()
+        c = cls(responder, **dict(cc, **kw))
+        c.uses = uses
+        return c
+    return cls(responder, **kw)
 
 
 def run(kind, thunk, loop=None):
